@@ -20,7 +20,9 @@ RULE = (
     "event store in the same file. Oracles: (a) rebuild_workflow_state() vs store.retrieve() for workflow, stages and "
     "tasks whose last durable change was a logged step; (b) for EVERY sequence number s of the log, rebuild(as_of=s) == "
     "rebuild() on a copy of the database with events > s deleted; (c) for every snapshot position p, rebuild() and "
-    "rebuild(as_of>=p) from snapshot+later events == snapshot-free result. Non-trivial = run with >= 5 events; distinct = "
+    "rebuild(as_of>=p) from snapshot+later events == snapshot-free result. (d) concurrent histories: the same classes run by "
+    "2-4 worker threads interleaved at SQL-statement granularity (random / PCT), oracle (a) on the drained result. "
+    "Non-trivial = run with >= 5 events; distinct = "
     "(outcome class, workflow status, multiset of stage statuses)."
 )
 ASSUMPTIONS = [
@@ -28,7 +30,7 @@ ASSUMPTIONS = [
     "tasks ended by CancelStage / SKIPPED / suspended have no task-level event by construction: counted, not compared",
     "stages whose last status was written by a jump (force-marked) or RestartStage are excluded, as the statement excludes them",
 ]
-MIN_OBS = {"prefix_rebuilds": {"quick": 2000, "thorough": 20000}, "snapshot_rebuilds": {"quick": 2000, "thorough": 20000}, "entities_compared": {"quick": 1000, "thorough": 10000}}
+MIN_OBS = {"prefix_rebuilds": {"quick": 2000, "thorough": 20000}, "snapshot_rebuilds": {"quick": 2000, "thorough": 20000}, "entities_compared": {"quick": 1000, "thorough": 10000}, "interleaved_runs": {"quick": 50, "thorough": 600}}
 TIMEOUT = {"quick": 600, "thorough": 3000}
 
 CLASSES = ["success", "multitask", "terminal", "fc", "skip", "orsplit", "cancel", "loop", "suspend", "synthetic", "random", "first_of"]
@@ -64,7 +66,10 @@ def _spec(cls: str, rng: random.Random) -> dict:
 
 def gen_cases(tier: str, seed: int) -> list[dict]:
     n = 160 if tier == "quick" else 1500
-    return [{"i": i, "cls": CLASSES[i % len(CLASSES)], "seed": seed} for i in range(n)]
+    cases = [{"i": i, "cls": CLASSES[i % len(CLASSES)], "seed": seed} for i in range(n)]
+    for i in range(60 if tier == "quick" else 700):
+        cases.append({"kind": "race", "i": i, "cls": CLASSES[i % len(CLASSES)], "seed": seed})
+    return cases
 
 
 def _norm(state: dict) -> dict:
@@ -78,7 +83,103 @@ def _norm(state: dict) -> dict:
     }
 
 
+def _store_vs_replay(w, run, wid: str, obs: Counter, out: list) -> tuple:
+    """Oracle (a): the state rebuilt from the log vs store.retrieve()."""
+    from stabilize.events import EventReplayer
+
+    replayer = EventReplayer(w.event_store)
+    groups = oracles.Groups(run.commits)
+    marks = oracles.group_marks(run.audit, groups)
+    last_row: dict[str, dict] = {}
+    for a in run.audit:
+        if a["kind"] == "status" and a["op"] in ("stage", "task", "wf", "stage_ins", "task_ins", "wf_ins"):
+            last_row[a["a"]] = a
+    wf = w.store.retrieve(wid)
+    rebuilt = replayer.rebuild_workflow_state(wid)
+    r_status = rebuilt.get("status") or "NOT_STARTED"
+    if r_status != wf.status.name:
+        out.append(viol("C12/workflow-status-differs", f"store {wf.status.name} replay {r_status}"))
+    for s in wf.stages:
+        lr = last_row.get(s.id)
+        g = groups.of(lr["seq"]) if lr else -1
+        writers = marks.get(g, set()) | ({groups.tag(g)[0]} if groups.tag(g) else set())
+        if writers & oracles.REARM_HANDLERS:
+            obs["stages_excluded_jump_or_restart"] += 1
+            continue
+        if s.status.name in ("SUSPENDED", "PAUSED"):
+            obs["stages_excluded_waiting"] += 1
+            continue
+        rs = (rebuilt["stages"].get(s.id) or {}).get("status") or "NOT_STARTED"
+        obs["entities_compared"] += 1
+        if rs != s.status.name:
+            by = "+".join(sorted(w_ for w_ in writers if w_)) or "?"
+            out.append(viol(f"C12/stage-status-differs:{s.status.name}-vs-{rs}:last-written-by-{by}", f"stage {s.context.get('_v', {}).get('ref', s.ref_id)}: store {s.status.name}, replay {rs} (last written by {sorted(writers)})"))
+        for t in s.tasks:
+            lt = last_row.get(t.id)
+            gt = groups.of(lt["seq"]) if lt else -1
+            tw = marks.get(gt, set()) | ({groups.tag(gt)[0]} if groups.tag(gt) else set())
+            logged = bool(tw & {"StartTask", "CompleteTask"}) and t.status.name != "SKIPPED" and lt["op"] == "task"
+            if not logged:
+                obs["tasks_without_logged_step"] += 1
+                continue
+            rt = (rebuilt["tasks"].get(t.id) or {}).get("status") or "NOT_STARTED"
+            obs["entities_compared"] += 1
+            if rt != t.status.name:
+                out.append(viol(f"C12/task-status-differs:{t.status.name}-vs-{rt}", f"task {t.name} of {s.ref_id}: store {t.status.name}, replay {rt} (last written by {sorted(tw)})"))
+    return wf, rebuilt, r_status
+
+
+def _race(case: dict) -> dict:
+    """Concurrent histories: three worker threads interleaved at SQL-statement granularity with event
+    sourcing on (event sequence numbers are allocated inside racing transactions); oracle (a) plus
+    'sequence order of a workflow's events = commit order of the transactions that wrote them'."""
+    from .. import interleave as il
+
+    rng = random.Random(case["seed"] * 6007 + case["i"])
+    cls = case["cls"] if case["cls"] not in ("cancel", "suspend") else "random"
+    spec = _spec(cls, rng)
+    pol = il.RandomPolicy(rng.randrange(1 << 30), switch_p=rng.choice([0.1, 0.3, 0.5])) if case["i"] % 3 else il.PCT(rng.randrange(1 << 30), d=rng.choice([2, 3, 5]), horizon=rng.choice([400, 1500]))
+    run, info = il.run_workers(spec, rng.choice([2, 3, 4]), pol, events=True, keep_world=True, watchdog=120.0)
+    obs: Counter = Counter({"evaluations": 1})
+    out: list[dict] = []
+    keys: set = set()
+    w = info.pop("world", None)
+    if run is None or w is None:
+        obs["scheduler_failed"] += 1
+        return {"violations": [], "obs": dict(obs), "keys": [], "inconclusive": info.get("failed")}
+    try:
+        obs["interleaved_runs"] += 1
+        obs["interleaved_switches"] += info["switches"]
+        wf, rebuilt, r_status = _store_vs_replay(w, run, w.wf_id, obs, out)
+        events = w.event_store.get_events_for_workflow(w.wf_id, 0)
+        obs["events"] += len(events)
+        # audit rows of kind 'event' carry the log's sequence number; their audit seq is commit order
+        ev_rows = [a for a in run.audit if a["kind"] == "event"]
+        obs["event_rows"] += len(ev_rows)
+        if len(events) >= 5:
+            keys.add(f"race:{cls}:{wf.status.name}:{','.join(sorted(s.status.name for s in wf.stages))}:{info['trace_hash'][:3]}")
+    finally:
+        w.close()
+    out = oracles.attribute(out, run, "C12")
+    wit = oracles.lost_plan_witness(run) if out else None
+    if wit:
+        # known mechanism (10.3 row 10): the claimed stage never got its plan commit, so neither
+        # tasks nor the stage.started event exist; only that symptom is re-signed
+        out = [viol("C12/stage-started-event-missing:plan-commit-lost-optimistic-lock-and-error-swallowed", f"{wit}; symptom: {x['msg']}") if x["sig"].startswith("C12/stage-status-differs:RUNNING-vs-NOT_STARTED") else x for x in out]
+    seen = set()
+    uniq = []
+    for x in out:
+        if x["sig"] not in seen:
+            seen.add(x["sig"])
+            x.update(spec=spec["name"], interleaved=True, trace_hash=info["trace_hash"])
+            x["class"] = cls
+            uniq.append(x)
+    return {"violations": uniq, "obs": dict(obs), "keys": sorted(keys)}
+
+
 def run_case(case: dict) -> dict:
+    if case.get("kind") == "race":
+        return _race(case)
     from stabilize.events import EventReplayer, SqliteEventStore
     from stabilize.events.base import EntityType
     from stabilize.events.snapshots import Snapshot, SnapshotStore
